@@ -271,6 +271,20 @@ def analyse(repo, package='pyx12', exclude=('test', 'scripts', 'examples')):
                         why = 'set value escapes (%s)' % type(p).__name__
                     if not ok:
                         findings.append(Finding('hash-order', m.name, qual, pm.get(pm.get(n), n) if isinstance(p, ast.Call) else (p if p is not None else n), why))
+                # ---- output discipline of the acknowledgement writers (C06): text reaches the output only through the one
+                # write primitive (error_997_visitor._write, under contract) or through X12Writer (C11)
+                if m.name in ('error_997', 'error_999'):
+                    if isinstance(n, ast.Call) and isinstance(n.func, ast.Attribute) and n.func.attr in ('write', 'writelines'):
+                        findings.append(Finding('direct-write', m.name, qual, pm_stmt(pm, n), 'writes to a stream directly'))
+                    if isinstance(n, ast.Name) and isinstance(n.ctx, ast.Load) and n.id in ('fd', 'fd_997'):
+                        par = pm.get(n)
+                        ctor = isinstance(par, ast.Call) and text(par.func).endswith('X12Writer') and n in par.args
+                        store = isinstance(par, ast.Assign) and len(par.targets) == 1 and text(par.targets[0]) == 'self.fd'
+                        if not (ctor or store):
+                            findings.append(Finding('direct-write', m.name, qual, pm_stmt(pm, n), 'the output stream escapes (%s)' % text(par)[:60]))
+                    if isinstance(n, ast.Attribute) and isinstance(n.ctx, ast.Load) and n.attr == 'fd' and \
+                            not (isinstance(pm.get(n), ast.Attribute) and pm.get(n).attr in ('write',)):
+                        findings.append(Finding('direct-write', m.name, qual, pm_stmt(pm, n), 'reads self.fd other than to write'))
                 # ---- delimiter reads (C12)
                 if isinstance(n, ast.Attribute) and isinstance(n.ctx, ast.Load) and n.attr in DELIM_ATTRS:
                     findings.append(Finding('delim-read', m.name, qual, pm_stmt(pm, n), 'reads .%s' % n.attr))
